@@ -90,6 +90,7 @@ def gen_case(streams, tier):
         'vcd_clock': g.random() < 0.3,
         'stage': stage,
         'writer_fault': f.randrange(0, 30) if f.random() < 0.3 else None,
+        'assert_exc': f.choice(['custom', 'custom', 'pyrtl', 'value', 'internal']),
         'sched': world.gen_sched(streams),
     }
 
@@ -251,12 +252,22 @@ def run(case, res):
     b = world.build_dut(script, sched, stage=world.stage_with_hook(case.get('stage'), res))
     aw = case.get('assert_wire')
     aw2 = case.get('assert_wire2') if aw else None
+    # the exception object the user registers: any Exception instance (except KeyError) is
+    # allowed, a PyrtlError of the user's own included
+    ek = case.get('assert_exc', 'custom')
+    mk = {'custom': PlantedAssertion, 'pyrtl': pyrtl.PyrtlError, 'value': ValueError,
+          'internal': pyrtl.PyrtlInternalError}[ek]
+    planted_excs = [mk('planted'), mk('planted2')]
+
+    def is_planted(e):
+        return any(e is x for x in planted_excs)
     if aw and aw in b.wires:
         with pyrtl.set_working_block(b.block, no_sanity_check=True):
-            pyrtl.rtl_assert(b.wires[aw], PlantedAssertion('planted'), block=b.block)
+            pyrtl.rtl_assert(b.wires[aw], planted_excs[0], block=b.block)
             if aw2 and aw2 in b.wires:
-                pyrtl.rtl_assert(b.wires[aw2], PlantedAssertion('planted2'), block=b.block)
+                pyrtl.rtl_assert(b.wires[aw2], planted_excs[1], block=b.block)
                 res.probes.hit('two_assertions')
+        res.probes.hit('assert_exc:' + ek)
     live = replica.Live.from_built(b)
     ref = world.ref_for(script, init)
     tape = case['cycles']
@@ -312,7 +323,9 @@ def run(case, res):
         raised = None
         try:
             sim.step(dict(cyc))
-        except PlantedAssertion as e:
+        except Exception as e:
+            if not is_planted(e):
+                raise
             raised = e
         accepted += 1
         res.cycles += 1
@@ -402,7 +415,9 @@ def run(case, res):
             else:
                 twin.step_multiple(nsteps=bsz, expected_outputs=expected, file=buf,
                                    stop_after_first_error=stop_flag)
-        except PlantedAssertion:
+        except Exception as e:
+            if not is_planted(e):
+                raise
             if fire is None or not (pos <= fire < pos + bsz):
                 return Violation('rtl_assert', 'raised_early_in_step_multiple',
                                  {'batch_start': pos}, [kind])
